@@ -90,6 +90,18 @@ AsgCases ==
   \cup {Case("asg-rhs-writes" \o op, <<Set("c", MutE(WInt, I(12)))>>,
              Asg(op, Tick(1, WMut(WInt), V("c")), Bin("+", Asg("=", V("c"), T(2, 3)), T(3, 1))), WInt, <<1, 2, 3>>) : op \in {"+=", "*=", "-="}}
 
+\* a plain READ of a cell is an operand like any other: `*c op f()' reads c before f runs (and writes c), `f() op *c' after
+Bump == FnDecl("bump", <<>>, WInt, <<Mark(2), Asg("=", V("c"), I(3)), Ret(I(2))>>)
+DerefCases ==
+  {Case("deref-left" \o op, <<Set("c", MutE(WInt, I(12))), Bump>>, Bin(op, Deref(V("c")), CallE(V("bump"), <<>>)), IF IsCmp(op) THEN WBool ELSE WInt, <<2>>) : op \in IntOps}
+  \cup {Case("deref-right" \o op, <<Set("c", MutE(WInt, I(12))), Bump>>, Bin(op, CallE(V("bump"), <<>>), Deref(V("c"))), IF IsCmp(op) THEN WBool ELSE WInt, <<2>>) : op \in IntOps}
+  \cup {Case("deref-left-eq-same", <<Set("c", MutE(WInt, I(12))), FnDecl("bump", <<>>, WInt, <<Mark(2), Asg("=", V("c"), I(5)), Ret(I(5))>>)>>,
+             TupE(<<Bin("==", Deref(V("c")), CallE(V("bump"), <<>>)), Bin("!=", Deref(V("c")), CallE(V("bump"), <<>>))>>), WTup(<<WBool, WBool>>), <<2, 2>>)}
+  \cup {Case("deref-in-array", <<Set("c", MutE(WInt, I(12))), Bump>>, ArrE(<<Deref(V("c")), CallE(V("bump"), <<>>), Deref(V("c"))>>), WArr(WInt), <<2>>),
+        Case("deref-in-call", <<Set("c", MutE(WInt, I(12))), Bump, F2>>, CallE(V("f2"), <<Deref(V("c")), CallE(V("bump"), <<>>)>>), WInt, <<2>>),
+        Case("index-left", <<Set("c", MutE(WInt, I(0))), Set("arr", ArrE(<<I(10), I(20)>>)), FnDecl("bump", <<>>, WInt, <<Mark(2), Asg("=", V("c"), I(1)), Ret(I(2))>>)>>,
+             Bin("-", At(V("arr"), Deref(V("c"))), CallE(V("bump"), <<>>)), WInt, <<2>>)}
+
 BoolAsgCases ==
   \* a bool cell that already holds the deciding value excuses nothing: &= |= ^= evaluate their value operand, once
   {Case("asg-bool" \o op \o ToString(c) \o ToString(v), <<Set("c", MutE(WBool, B(c)))>>, Asg(op, Tick(1, WMut(WBool), V("c")), TB(2, v)), WBool, <<1, 2>>)
@@ -213,7 +225,7 @@ CtlProg(c, ctx) ==
 Contexts == {"top", "fn"}
 AllCases ==
   {[id |-> c.name \o "/" \o ctx, suite |-> "c07", prog |-> ExprProg(c, ctx), must |-> c.must]
-      : c \in BinCases \cup LogicCases \cup DataCases \cup AsgCases \cup ZeroCases \cup LitIterCases \cup RepCases \cup BoolAsgCases, ctx \in Contexts}
+      : c \in BinCases \cup LogicCases \cup DataCases \cup AsgCases \cup ZeroCases \cup LitIterCases \cup RepCases \cup BoolAsgCases \cup DerefCases, ctx \in Contexts}
   \cup {[id |-> c.name \o "/" \o ctx, suite |-> "c07", prog |-> CtlProg(c, ctx), must |-> c.must]
       : c \in CtlCases, ctx \in Contexts}
 
